@@ -146,7 +146,7 @@ Proof.
   match goal with |- (_ < 3 * wsum ?X _)%Z =>
     assert (wsum (fun k => voted_for (received l) ty h r b (N.of_nat k)) (vals h) <= wsum X (vals h))%Z end; [|lia].
   apply wsum_on_mono; auto. intros k Hk. unfold voted_for in Hk. apply existsb_exists in Hk.
-  destruct Hk as (x & Hin & Hx). destruct x as [| | |peer w|]; try discriminate.
+  destruct Hk as (x & Hin & Hx). destruct x as [| | | |peer w|]; try discriminate.
   repeat (apply andb_true_iff in Hx; destruct Hx as (Hx & ?)).
   apply N.eqb_eq in H2. apply N.eqb_eq in H3. apply N.eqb_eq in H0.
   assert (v_bid w = b).
